@@ -180,6 +180,16 @@ def _complete(ctx, cls, col):
             text="saved fields all restored")
 
 
+def _var_assigned_from(fn, call_pred):
+    """Name of the local bound by `<name> = <call matching call_pred>(...)` (unique), else None."""
+    names = []
+    for s in ast.walk(fn):
+        if isinstance(s, ast.Assign) and len(s.targets) == 1 and isinstance(s.targets[0], ast.Name) and isinstance(s.value, ast.Call) \
+                and call_pred(s.value):
+            names.append(s.targets[0].id)
+    return names[0] if len(names) == 1 else None
+
+
 # ------------------------------------------------------------------- R10.3
 def _first(nodes, pred):
     for n in nodes:
@@ -201,11 +211,15 @@ def _stmt_calls(n):
 def _protocol(ctx, col):
     cm = ctx.ct.get("CheckpointMixin")
     file = cm.module.relpath
-    for meth, solver_expr in (("load_checkpoint", "self"), ("restore", "solver")):
+    for meth, solver_expr in (("load_checkpoint", "self"), ("restore", None)):
         owner, fn = ctx.ct.require(cm, meth)
         g = cfg_of(fn)
         nodes = g.stmts()
         construct = f"CheckpointMixin.{meth}"
+        if solver_expr is None:
+            solver_expr = _var_assigned_from(fn, lambda c: isinstance(c.func, ast.Name) and c.func.id == "instantiate")
+            if solver_expr is None:
+                raise AnalysisError("anchor vanished: restore() does not bind the result of instantiate(...) to a local")
 
         def has_call(n, pred):
             return any(pred(c) for c in _stmt_calls(n))
@@ -302,7 +316,12 @@ def _protocol(ctx, col):
                 icall = [c for c in _stmt_calls(inst) if isinstance(c.func, ast.Name) and c.func.id == "instantiate"][0]
                 ok = len(icall.args) == 1 and isinstance(icall.args[0], ast.Name) and icall.args[0].id == cname
                 pcall = [c for c in _stmt_calls(load) if ast.unparse(c.func) == "OmegaConf.load"][0]
-                ok = ok and len(pcall.args) == 1 and ast.unparse(pcall.args[0]) == "config_path"
+                # the loaded path is the one whose existence was tested
+                tested = [x.func.value for x in ast.walk(chk.ast.test) if isinstance(x, ast.Call) and isinstance(x.func, ast.Attribute) and x.func.attr == "exists"] if chk is not None else []
+                ok = ok and len(pcall.args) == 1 and len(tested) == 1 and ast.unparse(pcall.args[0]) == ast.unparse(tested[0])
+                pdefs = [s_ for s_ in ast.walk(fn) if isinstance(s_, ast.Assign) and len(s_.targets) == 1 and ast.unparse(s_.targets[0]) == ast.unparse(pcall.args[0])] if ok else []
+                ok = ok and len(pdefs) == 1 and isinstance(pdefs[0].value, ast.BinOp) and isinstance(pdefs[0].value.op, ast.Div) \
+                    and isinstance(pdefs[0].value.right, ast.Constant) and pdefs[0].value.right.value == "config.yaml"
             col.add("R10.3", construct, file, (inst.lineno if inst else fn.lineno), ok,
                     "instantiate() is applied to the configuration loaded from config.yaml" if ok else
                     "instantiate() is not applied to the loaded configuration", text="instantiate loaded config")
@@ -315,6 +334,10 @@ def _overrides(ctx, col):
     file = owner.module.relpath
     params = [a.arg for a in fn.args.args]
     parents = parents_of(fn)
+    cfgvar = _var_assigned_from(fn, lambda c: ast.unparse(c.func) == "OmegaConf.load")
+    solvar = _var_assigned_from(fn, lambda c: isinstance(c.func, ast.Name) and c.func.id == "instantiate")
+    if cfgvar is None or solvar is None:
+        raise AnalysisError("anchor vanished: restore() does not bind OmegaConf.load(...) / instantiate(...) to locals")
     for p, key in OVERRIDES.items():
         if p not in params:
             col.add("R10.4", "CheckpointMixin.restore", file, fn.lineno, False, f"override parameter `{p}` vanished", text=f"override {p}")
@@ -323,7 +346,7 @@ def _overrides(ctx, col):
         hits = []
         for s in ast.walk(fn):
             if isinstance(s, ast.Assign) and len(s.targets) == 1 and isinstance(s.targets[0], ast.Attribute) \
-                    and isinstance(s.targets[0].value, ast.Name) and s.targets[0].value.id == "config":
+                    and isinstance(s.targets[0].value, ast.Name) and s.targets[0].value.id == cfgvar:
                 if any(isinstance(x, ast.Name) and x.id == p for x in ast.walk(s.value)):
                     hits.append(s)
         ok = len(hits) == 1 and hits[0].targets[0].attr == key
@@ -337,7 +360,7 @@ def _overrides(ctx, col):
         col.add("R10.4", "CheckpointMixin.restore", file, (hits[0].lineno if hits else fn.lineno), ok, why, text=f"override {p}")
         # no other writer of that config key in restore
         others = [s for s in ast.walk(fn) if isinstance(s, ast.Assign) and len(s.targets) == 1 and isinstance(s.targets[0], ast.Attribute)
-                  and isinstance(s.targets[0].value, ast.Name) and s.targets[0].value.id == "config" and s.targets[0].attr == key and s not in hits]
+                  and isinstance(s.targets[0].value, ast.Name) and s.targets[0].value.id == cfgvar and s.targets[0].attr == key and s not in hits]
         if others:
             col.add("R10.4", "CheckpointMixin.restore", file, others[0].lineno, False,
                     f"config.{key} is also written by `{norm_text(others[0])}`", text=f"second writer of {key}")
@@ -354,7 +377,7 @@ def _overrides(ctx, col):
     # no write of restored state happens between instantiate and the restore other than via the protocol:
     g = cfg_of(fn)
     bad = [s for s in ast.walk(fn) if isinstance(s, ast.Assign) and any(
-        isinstance(t, ast.Attribute) and isinstance(t.value, ast.Name) and t.value.id == "solver" for t in s.targets)]
+        isinstance(t, ast.Attribute) and isinstance(t.value, ast.Name) and t.value.id == solvar for t in s.targets)]
     col.add("R10.4", "CheckpointMixin.restore", file, (bad[0].lineno if bad else fn.lineno), not bad,
             "restore() assigns no solver attribute itself (state comes only from _restore_state_from_checkpoint)" if not bad else
             f"restore() writes solver attributes directly: {norm_text(bad[0])}", text="no direct solver writes")
